@@ -151,3 +151,38 @@ Qed.
 
 Lemma range_step_0 a s : range_step a a (S s) = [].
 Proof. unfold range_step. replace (a - a + (S s - 1)) with s by lia. rewrite Nat.div_small by lia. reflexivity. Qed.
+
+(* ---------- more operations that do not raise on the inputs at hand ---------- *)
+Lemma index_cons0 {A} (x : A) r ds : index (x :: r) 0 ds = Ok x ds.
+Proof. reflexivity. Qed.
+
+Lemma index_nth {A} (l : list A) i d0 ds : i < length l -> index l i ds = Ok (nth i l d0) ds.
+Proof. intro H. unfold index. rewrite (nth_error_nth' l d0 H). reflexivity. Qed.
+
+Lemma pop0_cons {A} (x : A) r ds : pop0 (x :: r) ds = Ok r ds.
+Proof. reflexivity. Qed.
+
+Lemma qmaxM_ok l ds : l <> [] -> qmaxM l ds = Ok (qmax l) ds.
+Proof. destruct l; [congruence|reflexivity]. Qed.
+
+Lemma qminM_ok l ds : l <> [] -> qminM l ds = Ok (qmin l) ds.
+Proof. destruct l; [congruence|reflexivity]. Qed.
+
+Lemma filterM_pure {A} (f : A -> M bool) (g : A -> bool) l :
+  (forall x ds, In x l -> f x ds = Ok (g x) ds) -> forall ds, filterM f l ds = Ok (filter g l) ds.
+Proof.
+  induction l as [|x r IH]; intros H ds; [reflexivity|]. cbn [filterM filter].
+  rewrite (bind_Ok_eq _ _ _ _ _ (H x ds (or_introl eq_refl))).
+  rewrite (bind_Ok_eq _ _ _ _ _ (IH (fun y d Hy => H y d (or_intror Hy)) ds)). unfold ret. destruct (g x); reflexivity.
+Qed.
+
+(* [x for x, v in zip(l, [f(y) for y in l]) if p(v)] *)
+Lemma filter_combine_map {A B} (f : A -> B) (p : B -> bool) l :
+  map fst (filter (fun xv => p (snd xv)) (combine l (map f l))) = filter (fun x => p (f x)) l.
+Proof.
+  induction l as [|x r IH]; [reflexivity|]. cbn [map combine filter snd]. destruct (p (f x)); cbn [map fst]; rewrite IH; reflexivity.
+Qed.
+
+Lemma bind_ext_ok {A B} (m : M A) (f g : A -> M B) ds :
+  (forall a d, m ds = Ok a d -> f a d = g a d) -> bind m f ds = bind m g ds.
+Proof. intro H. unfold bind. destruct (m ds); auto. Qed.
